@@ -287,3 +287,5 @@ func mustMarshal(m proto.Message) []byte {
 	}
 	return b
 }
+
+func valueOfString(s string) protoreflect.Value { return protoreflect.ValueOfString(s) }
